@@ -24,9 +24,9 @@ RULE = ("for each text format {json, json5, yaml, xml, html, plist} and each sam
 ASSUMPTIONS = ["CSV (its reader accepts every byte string) and pickle (no independent notion of validity) are excluded by the property",
                "independent recognisers: hand-written strict JSON / lenient JSON5 / XML well-formedness scanners in this file, the "
                "pure-Python yaml.Loader (graphtage uses the C loader); reference libraries: json, json5, PyYAML, ElementTree, plistlib"]
-MINIMUMS = {"quick": {"faults_judged": 6000, "faults_judged:json": 500, "faults_judged:json5": 300, "faults_judged:yaml": 150,
+MINIMUMS = {"quick": {"cli_on_a_terminal": 1500, "faults_judged": 6000, "faults_judged:json": 500, "faults_judged:json5": 300, "faults_judged:yaml": 150,
                       "faults_judged:xml": 500, "faults_judged:html": 500, "faults_judged:plist": 500, "subprocess_runs": 12},
-            "thorough": {"faults_judged": 200000, "faults_judged:json": 20000, "faults_judged:json5": 5000, "faults_judged:yaml": 10000,
+            "thorough": {"cli_on_a_terminal": 20000, "faults_judged": 200000, "faults_judged:json": 20000, "faults_judged:json5": 5000, "faults_judged:yaml": 10000,
                          "faults_judged:xml": 20000, "faults_judged:html": 20000, "faults_judged:plist": 20000,
                          "subprocess_runs": 200}}
 FORMATS = ["json", "json5", "yaml", "xml", "html", "plist"]
@@ -477,10 +477,11 @@ def check(case, ctx):
             ctx.count("subprocess_runs")
     else:
         status_on = (len(bad) + case["position"]) % 2 == 0      # default user path: status on, real file descriptors
-        res = monitors.run_main(argv[1:] if status_on else argv, real_files=status_on)
+        tty = status_on and (len(bad) // 2 + case["position"]) % 2 == 0     # ... half of those on (pseudo-)terminals
+        res = monitors.run_main(argv[1:] if status_on else argv, real_files=status_on, tty=tty)
         rc, out, err = res.rc, res.out, res.err
         if ctx is not None and status_on:
-            ctx.count("cli_with_status_output_and_real_fds")
+            ctx.count("cli_on_a_terminal" if tty else "cli_with_status_output_and_real_fds")
         exc = None if res.exc is None else f"{type(res.exc).__name__}: {str(res.exc)[:120]}"
         exc_type = None if res.exc is None else type(res.exc).__name__
     where = "first" if case["position"] == 0 else "second"
